@@ -335,6 +335,14 @@ impl NetcodeServer {
 
         log::trace!("Connection request from Client {}", connect_token.client_id);
 
+        // A different connect token from an address with a half-open connection replaces it (the client restarted),
+        // the challenge above was sealed for the new token.
+        if let Some(pending) = self.pending_clients.get(&addr) {
+            if pending.send_key != connect_token.server_to_client_key || pending.receive_key != connect_token.client_to_server_key {
+                self.pending_clients.remove(&addr);
+            }
+        }
+
         let pending = self.pending_clients.entry(addr).or_insert_with(|| Connection {
             confirmed: false,
             sequence: 0,
